@@ -49,6 +49,10 @@ func (b *Builder) AddWithSequence(key, value []byte, seqNum uint64) error {
 		Value:       append([]byte(nil), value...), // to external data
 		SequenceNum: seqNum,
 	})
+	if value != nil && len(value) == 0 {
+		// An empty value is a value, not a tombstone (nil)
+		b.entries[len(b.entries)-1].Value = []byte{}
+	}
 
 	// Add restart point if needed
 	if b.restartIdx == 0 || b.restartIdx >= RestartInterval {
